@@ -356,15 +356,19 @@ func runCheck(prop, tier string, curate bool) int {
 	// --- classify failures
 	known := loadCases(prop)
 	ff := loadFindings()
-	groupToFinding := map[string]*finding{}
-	for i := range ff.Findings {
-		f := &ff.Findings[i]
-		if f.Property != prop || f.Status != "open" {
-			continue
+	findingFor := func(group string) *finding {
+		for i := range ff.Findings {
+			f := &ff.Findings[i]
+			if f.Property != prop || f.Status != "open" {
+				continue
+			}
+			for _, g := range f.Groups {
+				if globMatch(g, group) {
+					return f
+				}
+			}
 		}
-		for _, g := range f.Groups {
-			groupToFinding[g] = f
-		}
+		return nil
 	}
 	type kfAgg struct {
 		n       int
@@ -377,7 +381,7 @@ func runCheck(prop, tier string, curate bool) int {
 		if g, ok := known[f.ID]; ok {
 			id := "unassigned:" + g
 			what := g
-			if fd := groupToFinding[g]; fd != nil {
+			if fd := findingFor(g); fd != nil {
 				id = fd.ID
 				what = fd.What
 			}
@@ -457,6 +461,26 @@ func runCheck(prop, tier string, curate bool) int {
 		return 1
 	}
 	return 0
+}
+
+// globMatch matches s against a pattern in which '*' stands for any substring.
+func globMatch(pattern, s string) bool {
+	parts := strings.Split(pattern, "*")
+	if len(parts) == 1 {
+		return pattern == s
+	}
+	if !strings.HasPrefix(s, parts[0]) {
+		return false
+	}
+	s = s[len(parts[0]):]
+	for i := 1; i < len(parts)-1; i++ {
+		j := strings.Index(s, parts[i])
+		if j < 0 {
+			return false
+		}
+		s = s[j+len(parts[i]):]
+	}
+	return strings.HasSuffix(s, parts[len(parts)-1])
 }
 
 func trunc(s string, n int) string {
